@@ -312,3 +312,49 @@ Example batch_nonvacuous :
      [(1, 1, Ok (VInt 5)); (2, 2, Ok (VInt 6)); (3, 3, Err E_NOTSET); (0, 9, Ok VNone)], 1, [9],
      [(Some (Ok (VInt 5)), [1]); (Some (Ok (VInt 6)), [2]); (Some (Err E_NOTSET), [3])]).
 Proof. reflexivity. Qed.
+
+(* ---- the CLASS of the Exception the flush body raises does not matter ---- *)
+Definition bpstate (f : xcls -> xcls) (s : bstate) : bstate :=
+  bmk (bitems s) (recls_pout f (bfin s)) (bout s) (bruns s) (bsubs s) (blog s) (binner s).
+
+Lemma bcomplete_bpstate f s o : bcomplete (bpstate f s) o = bpstate f (bcomplete s o).
+Proof.
+  unfold bcomplete. cbn [bitems bpstate]. destruct (fill 1 (bitems s) (fill_error o)). reflexivity.
+Qed.
+
+Lemma bcompute_bpstate f s : bcompute (bpstate f s) = bpstate f (bcompute s).
+Proof.
+  unfold bcompute. cbn [bitems bpstate bfin]. destruct (flush_body 1 (bitems s)) as [[[its lg] rs] x].
+  match goal with |- bcomplete ?a ?o = bpstate f (bcomplete ?b ?o') =>
+    change a with (bpstate f b); replace o with o' by (destruct x; auto; destruct (bfin s); reflexivity) end.
+  apply bcomplete_bpstate.
+Qed.
+
+Lemma bstep_bpstate f s o : bstep (bpstate f s) o = (bpstate f (fst (bstep s o)), snd (bstep s o)).
+Proof.
+  destruct o as [[|i] x| |].
+  - destruct x; cbn [bstep]; unfold bread; change (bout (bpstate f s)) with (bout s);
+      try (destruct (bout s); rewrite ?bcompute_bpstate, ?bcomplete_bpstate; reflexivity).
+  - destruct x; cbn [bstep]; unfold iread;
+      change (item_out (bpstate f s) i) with (item_out s i); change (bout (bpstate f s)) with (bout s);
+      try reflexivity;
+      destruct (item_out s i); try reflexivity; destruct (bout s); try reflexivity;
+      rewrite bcompute_bpstate; reflexivity.
+  - cbn. change (bout (bpstate f s)) with (bout s). destruct (bout s); auto. now rewrite bcompute_bpstate.
+  - cbn. change (bout (bpstate f s)) with (bout s). destruct (bout s); auto. now rewrite bcomplete_bpstate.
+Qed.
+
+Lemma brun_bpstate f ops : forall s,
+  brun (bpstate f s) ops = (bpstate f (fst (brun s ops)), snd (brun s ops)).
+Proof.
+  induction ops as [|o ops IH]; intros s; cbn [brun]; auto.
+  rewrite bstep_bpstate. destruct (bstep s o) as [s1 r]. cbn [fst snd]. rewrite IH.
+  destruct (brun s1 ops) as [s2 rs]. reflexivity.
+Qed.
+
+Lemma batch_provider_class_irrelevant f its fin ops :
+  run_batch its (recls_pout f fin) ops = run_batch its fin ops.
+Proof.
+  unfold run_batch. change (binit its (recls_pout f fin)) with (bpstate f (binit its fin)).
+  rewrite brun_bpstate. destruct (brun (binit its fin) ops) as [s rs]. reflexivity.
+Qed.
